@@ -637,7 +637,8 @@ pub fn cases_for(prop: &str, rng: &mut Rng, thorough: bool) -> Option<(Vec<GenCa
         "C02" => (cases_c02(rng, thorough), "Corr.GeoCases"),
         "C11" => (cases_c11(rng, thorough), "Corr.GeoCases"),
         "C06" => {
-            let g = std::fs::read_to_string("/verif/golden/golden_v062.txt").expect("golden table");
+            let g = std::fs::read_to_string("/verif/golden/golden_v062.txt").expect("golden table")
+                + &std::fs::read_to_string("/verif/golden/golden_v062_seams.txt").expect("golden table 2");
             (cases_c06(rng, thorough, &g), "Corr.GeoCases")
         }
         _ => return None,
